@@ -352,18 +352,18 @@ func validateRolloutSpecCanarySteps(c *validateContext, steps []appsv1beta1.Cana
 		}
 	}
 
-	for i := 1; i < stepCount; i++ {
-		prev := &steps[i-1]
+	// steps are comparable if they are of the same type (both integers or both percentages):
+	// compare each step with the latest previous step of its type, so that a step of the
+	// other type in between cannot hide a decrease
+	lastOfType := map[bool]int{}
+	for i := range steps {
 		curr := &steps[i]
-		// if they are comparable, then compare them
-		if IsPercentageCanaryReplicasType(prev.Replicas) != IsPercentageCanaryReplicasType(curr.Replicas) {
-			continue
-		}
-		prevCanaryReplicas, _ := intstr.GetScaledValueFromIntOrPercent(prev.Replicas, 100, true)
+		isPercentage := IsPercentageCanaryReplicasType(curr.Replicas)
 		currCanaryReplicas, _ := intstr.GetScaledValueFromIntOrPercent(curr.Replicas, 100, true)
-		if currCanaryReplicas < prevCanaryReplicas {
+		if prevCanaryReplicas, ok := lastOfType[isPercentage]; ok && currCanaryReplicas < prevCanaryReplicas {
 			return field.ErrorList{field.Invalid(fldPath.Child("CanaryReplicas"), steps, `Steps.CanaryReplicas must be a non decreasing sequence`)}
 		}
+		lastOfType[isPercentage] = currCanaryReplicas
 	}
 
 	return nil
